@@ -7,7 +7,9 @@ VERIF = os.path.dirname(os.path.dirname(os.path.abspath(__file__)))
 
 TRUST = ("Trusted base: rustc's type checker, borrow checker, trait resolution, layout computation and MIR construction; "
          "core/alloc semantics of the primitives the rules interpret (ptr::read/write/copy, slice::from_raw_parts, Zip/Enumerate/Map order, Box/Vec ownership); "
-         "typenum operator semantics (Sum<N,M>::USIZE = N::USIZE + M::USIZE ...). usize arithmetic on element counts is read over mathematical integers.")
+         "typenum operator semantics (Sum<N,M>::USIZE = N::USIZE + M::USIZE ...). usize arithmetic on element counts is read over mathematical integers where the build checks overflow "
+         "(every judged configuration does; casts to narrower integer types are not the identity). Configurations: F0 (no features), F1 (alloc serde zeroize const-default internals), "
+         "F1N (F1 without debug assertions: nothing may rest on a debug_assert!), F2 (F1 + faster-hex) and, in the thorough tier, F0N / F2N.")
 
 CHECKS = {
     "C13": {
@@ -85,7 +87,7 @@ CHECKS["C07"] = {
 }
 CHECKS["C08"] = {
     "technique": "iterator-pipeline term matching on abstractly interpreted MIR, in closure-driver or explicit-loop form + per-step call-count dataflow (exactly-once) + delegation/impl-shape facts",
-    "text": "Static pipeline-shape analysis: each body's iterator pipeline is reconstructed as a term by the abstract interpreter and matched against its specification - generate (stack/boxed) = for_each(enumerate(iter_mut over the builder's whole array)) with a closure calling F exactly once on every path with the enumerate index and storing the result in the paired slot; map/fold = one forward full traversal of the consumer's array with f called exactly once on the value read (acc first); all six zip bodies pair two forward full traversals by one Zip and call f exactly once with (element of lhs, element of self), zip dispatches (rhs, self, f) to inverted_zip/inverted_zip2; reference receivers forward generate, &S/&mut S/Box use the un-overridden trait defaults whose pipelines are from_iter(map(into_iter(self), f)) / fold(into_iter(self), init, f) over the full forward slice iterators; Default/Clone are the element-wise instances. Any reordering/skipping adaptor is a violation. Parametricity (types) supplies the rest; nothing is executed.",
+    "text": "Static pipeline-shape analysis: each body's iterator pipeline is reconstructed as a term by the abstract interpreter and matched against its specification - generate (stack/boxed) = for_each(enumerate(iter_mut over the builder's whole array)) with a closure calling F exactly once on every path with the enumerate index and storing the result in the paired slot; map/fold = one forward full traversal of the consumer's array with f called exactly once on the value read (acc first); all six zip bodies pair two forward full traversals by one Zip and call f exactly once with (element of lhs, element of self), zip dispatches (rhs, self, f) to inverted_zip/inverted_zip2; reference receivers forward generate, &S/&mut S/Box use the un-overridden trait defaults whose pipelines are from_iter(map(into_iter(self), f)) / fold(into_iter(self), init, f) over the full forward slice iterators; Default/Clone are the element-wise instances. Any reordering/skipping adaptor is a violation. Parametricity (types) supplies the rest; nothing is executed. Completeness: on every return path of each body (tree-shaped, helpers expanded) the value returned is the result of a judged pipeline, and no body calls the caller's function itself - so an added fast path with its own loops is not overlooked. A boxed receiver's own `map` is accepted in the pull form Mapped::generate(|_| f(source.next().unwrap())) over its by-value iterator.",
     "design_ref": "DESIGN.md §3 C08",
     "note": TRUST + " Order semantics of slice::Iter, Enumerate, Zip, Map, for_each, fold are trusted std.",
 }
@@ -112,7 +114,7 @@ CHECKS["C15"] = {
 }
 CHECKS["C16"] = {
     "technique": "heap typestate on MIR: non-zero-size and null-check dominance at raw alloc sites, raw-owned window vs foreign calls, into_raw/from_raw provenance and symbolic layout equality; positive fixture keeps zero-instance rules non-vacuous",
-    "text": "Static heap-ownership rules over the alloc-feature code: every raw alloc::alloc::* call site is checked for (Z) size != 0 implied by the dominating facts with size = N*size_of T symbolic, (N) every use of the returned pointer on the non-null edge of a test whose other edge diverges into handle_alloc_error, (U) no foreign-code call between the allocation and the Box::from_raw that gives the block an owner; every Box::from_raw is fed by the Box::into_raw (or alloc) of the same block at offset 0 with equal symbolic size under the dominating facts and the same element type (so the block is released with the layout it was requested with); raw element writes are owner-counted (C04.W). The rules found three defects in Box<GenericArray>::generate (zero-size request for N = 0, missing null check, block leaked on panic), all fixed (known_findings.json); as the repaired tree has no raw alloc site, the same rules are run on a positive fixture on which Z, N and U must fire. What a real allocator does on failure needs execution and is not claimed. C16.E: allocation APIs that report failure as a value (try_reserve*, Box::try_new*, Vec::try_with_capacity, Allocator::allocate ..) occur only where, on every path to a normal return, the request is known to have succeeded - failure diverges through handle_alloc_error (zero sites on the reviewed tree; a positive and a negative fixture keep the rule from passing vacuously). C16.F: every raw dealloc(ptr, layout) releases a block the function took over (Box::into_raw / leak / alloc) with exactly that layout, only where the layout's size is provably non-zero, and once (positive fixture).",
+    "text": "Static heap-ownership rules over the alloc-feature code: every raw alloc::alloc::* call site is checked for (Z) size != 0 implied by the dominating facts with size = N*size_of T symbolic, (N) every use of the returned pointer on the non-null edge of a test whose other edge diverges into handle_alloc_error, (U) no foreign-code call between the allocation and the Box::from_raw that gives the block an owner; every Box::from_raw is fed by the Box::into_raw (or alloc) of the same block at offset 0 with equal symbolic size under the dominating facts and the same element type (so the block is released with the layout it was requested with); raw element writes are owner-counted (C04.W). The rules found three defects in Box<GenericArray>::generate (zero-size request for N = 0, missing null check, block leaked on panic), all fixed (known_findings.json); as the repaired tree has no raw alloc site, the same rules are run on a positive fixture on which Z, N and U must fire. What a real allocator does on failure needs execution and is not claimed. C16.E: allocation APIs that report failure as a value (try_reserve*, Box::try_new*, Vec::try_with_capacity, Allocator::allocate ..) occur only where, on every path to a normal return, the request is known to have succeeded - failure diverges through handle_alloc_error (zero sites on the reviewed tree; a positive and a negative fixture keep the rule from passing vacuously). C16.F: every raw dealloc(ptr, layout) releases a block the function took over (Box::into_raw / leak / alloc) with exactly that layout, only where the layout's size is provably non-zero, and once (positive fixture). C16.R: every block a Box gives up (into_raw / leak) is adopted again (from_raw, Vec::from_raw_parts, dealloc) or returned on every return path of the body with its helpers expanded - a refusal (Err) path after into_raw leaks the block.",
     "design_ref": "DESIGN.md §3 C16",
     "note": TRUST + " Box/Vec allocate, free and report failure correctly; zero-size Boxes never touch the allocator.",
 }
@@ -131,7 +133,7 @@ CHECKS["C18"] = {
 }
 CHECKS["C19"] = {
     "technique": "complete-traversal recogniser on MIR (zeroize: iterator impl, for_each closure or next() loop over the full view) + aggregate-operand rule on the DEFAULT constant bodies combined with the structural storage induction (const-default)",
-    "text": "Static analysis: zeroize() is as_mut_slice(self) (proved to be the full N-element view) -> iter_mut() -> <IterMut as Zeroize>::zeroize on exactly that iterator, no adaptor or sub-slice; each DEFAULT constant body is a single all-fields struct aggregate whose child operands are <U as ConstDefault>::DEFAULT and whose trailing element is <T as ConstDefault>::DEFAULT, with no call/cast/unsafe in the body, the wrapper's storage is <N::ArrayType<T> as ConstDefault>::DEFAULT, and const_default() returns Self::DEFAULT; with the storage-shape premises of C01.S (re-checked here) every one of the N slots is T::DEFAULT for every binary digit pattern of N, by induction. Agreement with Default::default() and the zeroized value of an element are facts about the element type.",
+    "text": "Static analysis: zeroize() is as_mut_slice(self) (proved to be the full N-element view) -> iter_mut() -> <IterMut as Zeroize>::zeroize on exactly that iterator, no adaptor or sub-slice; each DEFAULT constant body is a single all-fields struct aggregate whose child operands are <U as ConstDefault>::DEFAULT and whose trailing element is <T as ConstDefault>::DEFAULT, with no call/cast/unsafe in the body, the wrapper's storage is <N::ArrayType<T> as ConstDefault>::DEFAULT, and const_default() returns Self::DEFAULT; with the storage-shape premises of C01.S (re-checked here) every one of the N slots is T::DEFAULT for every binary digit pattern of N, by induction. Agreement with Default::default() and the zeroized value of an element are facts about the element type. C19.E: the `equals Default::default()` clause - Default is generate(|_| T::default()) (or the collecting equivalent) and generate stores f(i) in slot i (C08's rules, run here), so the run-time default is N copies of T::default() as the constant default is N copies of T::DEFAULT.",
     "design_ref": "DESIGN.md §3 C19",
     "note": TRUST + " zeroize's IterMut impl and const-default's [T; 0] impl are trusted.",
 }
